@@ -91,6 +91,7 @@ type HarnessStats struct {
 	Queries       int64
 	Sat, Unsat    int64
 	Unknown       int64
+	DomainDecided int64 // branch decisions settled exactly by finite-domain evaluation of a single byte/bool variable
 	SolverTime    time.Duration
 	Steps         int64
 	MaxPathSteps  int64
@@ -148,6 +149,13 @@ type worker struct {
 	reached  map[string]bool
 	tier     int
 	ptrIDs   map[*value]int
+	cmodel   map[*Term]uint64 // last satisfying assignment of the path condition
+	modelOK  bool
+	known    map[*Term]bool // atoms whose truth value follows syntactically from the path condition
+	dom          map[*Term]*domain
+	csp          []*Term // multi-variable constraints of the path condition over small variables
+	witness      domSet
+	smallTainted bool // a constraint mixes small and wide variables: only the SMT solver decides
 
 	// monitors
 	roActive   bool
@@ -173,6 +181,7 @@ func (s *HarnessStats) merge(o *HarnessStats) {
 	s.Paths += o.Paths
 	s.AssumedAway += o.AssumedAway
 	s.Decisions += o.Decisions
+	s.DomainDecided += o.DomainDecided
 	s.Forks += o.Forks
 	s.Steps += o.Steps
 	if o.MaxPathSteps > s.MaxPathSteps {
@@ -401,9 +410,80 @@ func (w *worker) resetPath(prefix []int64) {
 	w.permute = false
 	w.noPanicDepth = 0
 	w.ptrIDs = nil
+	w.cmodel = map[*Term]uint64{}
+	w.modelOK = true // the empty path condition is satisfied by the all-zero assignment
+	w.known = map[*Term]bool{}
+	w.dom = map[*Term]*domain{}
+	w.csp = w.csp[:0]
+	w.witness = nil
+	w.smallTainted = false
+}
+
+// evalUnder evaluates a boolean term under the cached model.
+func (w *worker) evalUnder(t *Term) (val bool, ok bool) {
+	if !w.modelOK {
+		return false, false
+	}
+	e := evalCtx{vals: w.cmodel, memo: map[*Term]uint64{}, ok: true}
+	v := e.eval(t)
+	return v != 0, e.ok
+}
+
+func (w *worker) inputTerms() []*Term {
+	vars := make([]*Term, 0, len(w.inputs))
+	for _, in := range w.inputs {
+		if !in.isChoice {
+			vars = append(vars, in.term)
+		}
+	}
+	return vars
+}
+
+func (w *worker) setModel(vars []*Term, m []uint64) {
+	if m == nil {
+		return
+	}
+	w.cmodel = make(map[*Term]uint64, len(vars))
+	for i, v := range vars {
+		w.cmodel[v] = m[i]
+	}
+	w.modelOK = true
+}
+
+// checkM decides PC ∧ t; on sat the satisfying assignment becomes the cached model if keep is set.
+func (w *worker) checkM(t *Term, keep bool) SatResult {
+	if !keep {
+		return w.solver.Check(t)
+	}
+	vars := w.inputTerms()
+	r, m := w.solver.CheckWithModel(t, vars)
+	if r == Sat {
+		w.setModel(vars, m)
+	}
+	return r
+}
+
+func (w *worker) learn(t *Term, val bool) {
+	w.known[t] = val
+	switch t.op {
+	case OpNot:
+		w.learn(t.a[0], !val)
+	case OpAnd:
+		if val {
+			w.learn(t.a[0], true)
+			w.learn(t.a[1], true)
+		}
+	case OpOr:
+		if !val {
+			w.learn(t.a[0], false)
+			w.learn(t.a[1], false)
+		}
+	}
 }
 
 func (w *worker) runPath(prefix []int64) {
+	internBeginPath()
+	defer internEndPath()
 	w.resetPath(prefix)
 	w.solver.BeginPath()
 	w.ip.sched = newSched()
@@ -557,6 +637,14 @@ func (w *worker) addPC(t *Term) {
 	}
 	w.pc = append(w.pc, t)
 	w.solver.Assert(t)
+	w.learn(t, true)
+	wasOK := w.modelOK
+	w.noteConstraint(t)
+	if wasOK {
+		if v, ok := w.evalUnder(t); !ok || !v {
+			w.modelOK = false
+		}
+	}
 }
 
 func (w *worker) pushAlt(d int64) {
@@ -572,6 +660,10 @@ func (w *worker) branch(c *Term) bool {
 	if c.isConst() {
 		return c.k != 0
 	}
+	if v, ok := w.known[c]; ok {
+		// follows syntactically from the path condition: no decision, no query
+		return v
+	}
 	if w.pos < len(w.prefix) {
 		d := w.prefix[w.pos]
 		w.pos++
@@ -585,23 +677,54 @@ func (w *worker) branch(c *Term) bool {
 	}
 	w.st.Decisions++
 	nc := tNot(c)
-	rT := w.solver.Check(c)
-	var rF SatResult
-	if rT == Unsat {
-		rF = Sat
+	var rT, rF SatResult
+	if cT, cF, ok := w.domainDecide(c); ok {
+		rT, rF = Unsat, Unsat
+		if cT {
+			rT = Sat
+		}
+		if cF {
+			rF = Sat
+		}
+	} else if v, ok := w.evalUnder(c); ok {
+		// the cached model satisfies PC, so the side it takes is feasible
+		if v {
+			rT = Sat
+			rF = w.solver.Check(nc)
+		} else {
+			rF = Sat
+			rT = w.solver.Check(c)
+		}
 	} else {
-		rF = w.solver.Check(nc)
+		rT = w.checkM(c, true)
+		if rT == Unsat {
+			rF = Sat
+		} else {
+			rF = w.solver.Check(nc)
+		}
 	}
 	if rT == Unsat && rF == Unsat {
 		w.engineError("path condition became unsatisfiable")
 	}
 	switch {
 	case rT != Unsat && rF != Unsat:
-		w.pushAlt(0)
-		w.trace = append(w.trace, 1)
+		// take the side the cached model is on (keeps the cache valid)
+		take := true
+		if v, ok := w.evalUnder(c); ok && !v {
+			take = false
+		}
+		if take {
+			w.pushAlt(0)
+			w.trace = append(w.trace, 1)
+			w.pos++
+			w.addPC(c)
+			return true
+		}
+		w.pushAlt(1)
+		w.trace = append(w.trace, 0)
 		w.pos++
-		w.addPC(c)
-		return true
+		w.addPC(nc)
+		return false
 	case rT != Unsat:
 		w.trace = append(w.trace, 1)
 		w.pos++
@@ -662,8 +785,7 @@ func (w *worker) concretize(t *Term) uint64 {
 	w.st.Decisions++
 	var vals []uint64
 	block := tTrue
-	probe := &Term{op: OpVar, sort: t.sort, name: fmt.Sprintf("!probe%d", len(w.trace))}
-	w.addPC(tEq(probe, t))
+	probe := t
 	for {
 		res, m := w.solver.CheckWithModel(block, []*Term{probe})
 		if res == Unknown {
@@ -917,6 +1039,10 @@ func (w *worker) assertCond(c value, label string, fr *frame) {
 		w.finding(label, "assert", "assertion is false on this path for every input", fr)
 		w.abort(abStop, "assertion failed")
 	case sym:
+		if v, ok := w.known[c.t]; ok && v {
+			w.st.Discharged++
+			return
+		}
 		neg := tNot(c.t)
 		res := w.solver.Check(neg)
 		switch res {
@@ -947,8 +1073,20 @@ func (w *worker) assume(c value, why string) {
 			w.addPC(c.t)
 			return
 		}
-		if w.solver.Check(c.t) == Unsat {
-			w.abort(abAssume, why)
+		if v, ok := w.known[c.t]; ok {
+			if !v {
+				w.abort(abAssume, why)
+			}
+			return
+		}
+		if cT, _, ok := w.domainDecide(c.t); ok {
+			if !cT {
+				w.abort(abAssume, why)
+			}
+		} else if v, ok := w.evalUnder(c.t); !(ok && v) {
+			if w.checkM(c.t, true) == Unsat {
+				w.abort(abAssume, why)
+			}
 		}
 		w.addPC(c.t)
 	}
@@ -1001,6 +1139,35 @@ func (w *worker) onAlloc(fr *frame, n int64) {
 	if w.allocLimit > 0 && n > w.allocLimit && fr != nil && fr.info.ucfg {
 		w.finding("alloc-limit", "alloc", fmt.Sprintf("allocation of %d slots exceeds the limit %d in %s", n, w.allocLimit, fr.fn), fr)
 	}
+}
+
+// allocSize turns an allocation size into a concrete number; for a symbolic
+// size "negative" and "above the allocation limit" are solver-decided forks
+// (a target panic and an allocation finding respectively), the rest is
+// enumerated.
+func (w *worker) allocSize(fr *frame, v value) int64 {
+	s, ok := v.(sym)
+	if !ok {
+		return asInt64(v)
+	}
+	zero := mkConst(s.t.sort, 0)
+	if kindSigned(s.k) && w.branch(tBVCmp(OpBVSLt, s.t, zero)) {
+		panic(runtimeError("makeslice: len out of range"))
+	}
+	if w.allocLimit > 0 && fr.info.ucfg {
+		if w.branch(tBVCmp(OpBVULt, mkConst(s.t.sort, uint64(w.allocLimit)), s.t)) {
+			// prefer a model whose size is natively observable (tens of megabytes)
+			big := tAnd(tBVCmp(OpBVULt, mkConst(s.t.sort, 1<<21), s.t), tBVCmp(OpBVULt, s.t, mkConst(s.t.sort, 1<<25)))
+			msg := fmt.Sprintf("allocation of more than %d slots in %s", w.allocLimit, fr.fn)
+			if w.solver.Check(big) == Sat {
+				w.findingUnder(big, "alloc-limit", "alloc", msg, fr)
+			} else {
+				w.finding("alloc-limit", "alloc", msg+" (small overshoot: engine-observed only)", fr)
+			}
+			w.abort(abStop, "allocation beyond the limit")
+		}
+	}
+	return asInt64(w.concrete(v))
 }
 
 // collectReachable walks the heap from v, recording every cell and map.
